@@ -229,6 +229,26 @@ def run(ctx: Ctx) -> Outcome:
         big = [p for p in r.printed if isinstance(p, dict) and "k" in p]
         terms += rng.sample(big, min(len(big), 60000))
     ns = _namespace()
+    # history: some annotations are first asked for from the bottom of a deep call stack (a recursive visitor, a framework's
+    # nested middleware): whatever happens to such a call, what the annotation is rewritten to afterwards may not depend on it
+    from typelib.py import future as _future
+
+    def _from_the_deep(src):
+        def down():
+            try:
+                down()
+            except RecursionError:
+                try:
+                    _future.transform(src)
+                except RecursionError:
+                    pass
+                raise
+        try:
+            down()
+        except RecursionError:
+            pass
+    for t in rng.sample(terms, min(len(terms), 40)):
+        _from_the_deep(unparse(t))
     events = [observe(t, ns) for t in terms]
     for src in extra_expressions(rng, 300 if quick else 5000):
         try:
